@@ -223,6 +223,8 @@ C16_Send(r) ==       \* a send reported successful wrote exactly the requested m
                /\ (~addlp => Len(r.out[1].ats) = Len(r.rq.ats))
                /\ \A k \in 1..Len(r.rq.ats) : InSeq(r.rq.ats[k], r.out[1].ats)
                /\ (InSeq(5, r.rq.ats) => r.out[1].lp = r.rq.lp)          \* a requested LOCAL_PREF goes out as requested
+               \* a requested AS_PATH goes out with AS numbers of the width negotiated for this session
+               /\ (r.rq.aspl >= 0 => r.out[1].aspl = r.rq.aspl)
 C16_Fail(r) ==       \* a send reported as failed wrote nothing
    (r.cls = "REST" /\ r.rq.cls = "send" /\ r.rest.ok # 1) => (r.out = <<>> /\ r.st = r.pst)
 C16_ValidSend(r) ==  \* a well-formed send request in Established is carried out
